@@ -14,7 +14,9 @@ from ..adapters import pca as ad
 from ..core import generate, parallel_map, run_cases
 from .. import tlc
 
-SPECTRA = {"MC_PCABook_quick.cfg": [9, 5, 3, 2, 1], "MC_PCABook_b.cfg": [20, 7, 6, 4, 2, 1], "MC_PCABook_d4.cfg": [9, 5, 3, 2, 1]}
+SPECTRA = {"MC_PCABook_quick.cfg": [9, 5, 3, 2, 1], "MC_PCABook_b.cfg": [20, 7, 6, 4, 2, 1], "MC_PCABook_d4.cfg": [9, 5, 3, 2, 1],
+           # complete state graph (no depth bound, history hidden by a VIEW): one emitted history per TRANSITION
+           "MC_PCABook_unb_a.cfg": [9, 5, 3, 2, 1], "MC_PCABook_unb_b.cfg": [20, 7, 6, 4, 2, 1], "MC_PCABook_unb_c.cfg": [50, 21, 13, 8, 5, 3, 2, 1]}
 
 
 def run(chk, tier, seed, replay):
@@ -37,7 +39,8 @@ def run(chk, tier, seed, replay):
                 chk.mismatch(case, {"what": w, **detail}, kind=kind, what=w)
         return
     with tlc.Scratch("c10") as s:
-        cfgs = ["MC_PCABook_quick.cfg", "MC_PCABook_b.cfg"] + (["MC_PCABook_d4.cfg"] if tier == "thorough" else [])
+        cfgs = ["MC_PCABook_quick.cfg", "MC_PCABook_b.cfg", "MC_PCABook_unb_a.cfg", "MC_PCABook_unb_b.cfg", "MC_PCABook_unb_c.cfg"] + \
+               (["MC_PCABook_d4.cfg"] if tier == "thorough" else [])
         for cfg in cfgs:
             out, r = generate(chk, "book_" + cfg[11:-4], "MC_PCABook", cfg, s, workers=16)
             hs = tlc.read_emitted(out)
